@@ -1,1 +1,4 @@
 """vmc — bounded-exhaustive exploration machinery for pipefunc (see /verif/DESIGN.md)."""
+from . import boot as _boot
+
+_boot.preboot()
